@@ -58,14 +58,17 @@ Members(x) == IF x.t = "union" THEN UNION {Members(x.a[i]) : i \in DOMAIN x.a}
               \* module-level aliases keep unresolved forward references to other aliases
               ELSE IF x.t = "fwd" /\ x.n \in AName THEN Members(PyAnn([kind |-> "reference", name |-> x.n]))
               ELSE {x}
-AtomEq(x, y) ==
+AtomEqStrict(x, y) ==
     /\ (x.t = y.t \/ {x.t, y.t} = {"cls", "fwd"} \/ {x.t, y.t} = {"plainclass", "fwd"} \/ {x.t, y.t} = {"plainclass", "cls"}
         \/ {x.t, y.t} = {"plainclass", "object"})
     /\ CASE x.t \in {"cls", "fwd", "plainclass"} /\ y.t \in {"cls", "fwd", "plainclass"} -> x.n = y.n
          [] x.t \in {"seq", "dict", "tuple"} -> Len(x.a) = Len(y.a) /\ \A i \in DOMAIN x.a : TermEq(x.a[i], y.a[i])
          [] x.t = "literal" -> x.v = y.v
-         [] x.t = "literal-class" -> TRUE
          [] OTHER -> TRUE
+\* an anonymous literal class is named by the generator: any class stands for it
+AtomEq(x, y) == \/ (x.t = "literal-class" /\ y.t \in {"cls", "fwd", "literal-class"})
+                \/ (y.t = "literal-class" /\ x.t \in {"cls", "fwd"})
+                \/ (x.t # "literal-class" /\ y.t # "literal-class" /\ AtomEqStrict(x, y))
 TermEq(a, b) == LET ma == Members(a)  mb == Members(b) IN
                 /\ \A x \in ma : \E y \in mb : AtomEq(x, y)
                 /\ \A y \in mb : \E x \in ma : AtomEq(x, y)
